@@ -102,6 +102,11 @@ pub struct SyncCase {
     /// scheduler choices
     pub schedule: Vec<u16>,
     pub batch: u8,
+    /// 0: the generated schedule decides. k > 0: a fixed adversarial delivery policy - internal events
+    /// first, then the peer's messages newest first in bursts of k, then every pending fetch
+    /// (lowest height first) before the next burst
+    #[serde(default)]
+    pub burst_policy: u8,
 }
 
 #[derive(Debug, Default)]
@@ -109,6 +114,7 @@ pub struct SyncInfo {
     pub steps: usize,
     pub fetches: usize,
     pub out_of_order_completions: usize,
+    pub overtaking_messages: usize,
     pub converged: bool,
 }
 
@@ -180,6 +186,9 @@ pub fn run_sync(case: &SyncCase) -> (Vec<(String, String)>, SyncInfo) {
     let mut idle_ticks = 0;
     let max_steps = 1500;
     let mut last_completed_height = 0u64;
+    let mut burst_left = case.burst_policy;
+    let mut internal_streak = 0u32;
+    let max_steps = if case.burst_policy > 0 { 6000 } else { max_steps };
     while info.steps < max_steps && panicked.is_none() {
         info.steps += 1;
         for (_i, buf) in na.take_outbox() {
@@ -204,6 +213,9 @@ pub fn run_sync(case: &SyncCase) -> (Vec<(String, String)>, SyncInfo) {
         if !b2a.is_empty() {
             acts.push(1);
         }
+        if b2a.len() >= 2 {
+            acts.push(4); // the newest message from the peer overtakes the older ones
+        }
         for k in 0..fetches.len().min(4) {
             acts.push(10 + k as u8);
         }
@@ -225,10 +237,45 @@ pub fn run_sync(case: &SyncCase) -> (Vec<(String, String)>, SyncInfo) {
             continue;
         }
         idle_ticks = 0;
-        let pick = match sched.next() {
-            Some(s) => acts[(s as usize * acts.len()) >> 16],
-            None => acts[0],
+        let pick = if case.burst_policy > 0 {
+            // internal events first, but fairly: a parked block makes the node re-examine its queue
+            // over and over, which must not starve the network side for ever
+            if acts.contains(&2) && internal_streak < 30 {
+                internal_streak += 1;
+                2
+            } else if acts.contains(&3) && internal_streak < 60 {
+                internal_streak += 1;
+                3
+            } else if { internal_streak = 0; acts.contains(&0) } {
+                0
+            } else if burst_left > 0 && !b2a.is_empty() {
+                burst_left -= 1;
+                if b2a.len() >= 2 {
+                    4
+                } else {
+                    1
+                }
+            } else if !fetches.is_empty() {
+                // lowest height first
+                let k = (0..fetches.len().min(4)).min_by_key(|i| fetches[*i].2).unwrap();
+                if fetches.len() == 1 {
+                    burst_left = case.burst_policy;
+                }
+                10 + k as u8
+            } else {
+                burst_left = case.burst_policy;
+                acts[0]
+            }
+        } else {
+            match sched.next() {
+                Some(s) => acts[(s as usize * acts.len()) >> 16],
+                None => acts[0],
+            }
         };
+        if std::env::var("VERIF_TRACE").is_ok() {
+            let tag = |q: &VecDeque<Vec<u8>>| q.front().map(|b| b.first().copied().unwrap_or(255)).unwrap_or(254);
+            eprintln!("step {} pick {} acts {:?} a2b {} (tag {}) b2a {} (tag {}) fetches {:?} tipA {}", info.steps, pick, acts, a2b.len(), tag(&a2b), b2a.len(), tag(&b2a), fetches.iter().map(|f| f.2).collect::<Vec<_>>(), na.tip().0);
+        }
         match pick {
             0 => {
                 let buf = a2b.pop_front().unwrap();
@@ -236,6 +283,11 @@ pub fn run_sync(case: &SyncCase) -> (Vec<(String, String)>, SyncInfo) {
             }
             1 => {
                 let buf = b2a.pop_front().unwrap();
+                chk!(na.net_event(NetworkEvent::IncomingNetworkMessage { peer_index: 1, buffer: buf }));
+            }
+            4 => {
+                let buf = b2a.pop_back().unwrap();
+                info.overtaking_messages += 1;
                 chk!(na.net_event(NetworkEvent::IncomingNetworkMessage { peer_index: 1, buffer: buf }));
             }
             2 => {
@@ -345,7 +397,7 @@ pub fn run(ctx: &mut Ctx) {
         for p in 0..=nmax {
             for a in 0..=nmax.min(4) {
                 for b in (a + 1)..=(nmax + 1) {
-                    let case = SyncCase { p, a, b, loading_completed: lc, schedule: vec![], batch: 3 };
+                    let case = SyncCase { p, a, b, loading_completed: lc, schedule: vec![], batch: 3, burst_policy: 0 };
                     count += 1;
                     for (k, w) in eval_sync(ctx, &case, true) {
                         ctx.violation(&k, w, json!({"check": "sync_enumerated", "case": case}));
@@ -355,8 +407,47 @@ pub fn run(ctx: &mut Ctx) {
         }
     }
     ctx.extra.insert("enumerated_sync_triples".into(), json!(count));
+    // directed schedules over longer catch-ups: constant and periodic scheduler choices (always the
+    // first / last / middle enabled action, alternations) make announcements overtake each other
+    // and fetches complete in a fixed skewed order, for every batch size
+    let mut directed = 0;
+    for b in [8u8, 14, 26] {
+        for batch in [1u8, 2, 4, 10] {
+            for pat in 0..6u16 {
+                let schedule: Vec<u16> = (0..600u16)
+                    .map(|i| match pat {
+                        0 => 0xFFFF,
+                        1 => 0x8000,
+                        2 => if i % 2 == 0 { 0 } else { 0xFFFF },
+                        3 => if i % 3 == 0 { 0x4000 } else { 0xC000 },
+                        4 => if i % 5 < 3 { 0x3000 } else { 0xFFFF },
+                        _ => (i.wrapping_mul(40503)) ^ 0x5A5A,
+                    })
+                    .collect();
+                let case = SyncCase { p: 4, a: 3, b, loading_completed: true, schedule, batch, burst_policy: 0 };
+                directed += 1;
+                for (k, w) in eval_sync(ctx, &case, true) {
+                    ctx.violation(&k, w, json!({"check": "sync_directed", "case": case}));
+                }
+            }
+        }
+    }
+    // reversed announcement bursts: the peer's header hashes reach the node newest first, k at a
+    // time, and everything pending is fetched (lowest height first) before the next burst
+    for b in [8u8, 14, 26] {
+        for batch in [1u8, 2, 4, 10] {
+            for k in [1u8, 2, 3, 5, 8] {
+                let case = SyncCase { p: 6, a: 4, b, loading_completed: true, schedule: vec![], batch, burst_policy: k };
+                directed += 1;
+                for (key, w) in eval_sync(ctx, &case, true) {
+                    ctx.violation(&key, w, json!({"check": "sync_reversed_bursts", "case": case}));
+                }
+            }
+        }
+    }
+    ctx.extra.insert("directed_sync_schedules".into(), json!(directed));
     let strat = (0u8..12, 0u8..6, 1u8..14, prop_oneof![3 => Just(true), 1 => Just(false)], proptest::collection::vec(any::<u16>(), 0..120), prop_oneof![Just(1u8), Just(2u8), Just(4u8), Just(10u8)])
-        .prop_map(|(p, a, b, loading_completed, schedule, batch)| SyncCase { p, a, b: b.max(a + 1), loading_completed, schedule, batch });
+        .prop_map(|(p, a, b, loading_completed, schedule, batch)| SyncCase { p, a, b: b.max(a + 1), loading_completed, schedule, batch, burst_policy: 0 });
     let cases = ctx.tier.pick(250u32, 8_000);
     pbt_run(ctx, "sync_schedules", cases, strat, |c, case, counting| eval_sync(c, case, counting));
 }
